@@ -1,4 +1,5 @@
 """C06 - yearly gain/loss summary equals the sum of its detail fractions."""
+import ast
 import z3
 from pyvc.driver import fn, lemma, custom
 from pyvc import spec as S, vals as V
@@ -20,7 +21,29 @@ E2E = {"quick": 40, "thorough": 1500, "on_doubt": 400}
 
 
 def items(pr):
-    return [fn(CD + "._create_yearly_gain_loss_list"), fn(CD + "._filter_yearly_gain_loss_by_year")]
+    return [fn(CD + "._create_yearly_gain_loss_list"), fn(CD + "._filter_yearly_gain_loss_by_year"), custom("computed_data_call_sites", computed_data_call_sites)]
+
+
+def computed_data_call_sites(pr):
+    """ComputedData.__init__ is the only caller of the functions proved here: it must hand them the unfiltered sets and the to-date (the
+    window-filtered views are for display only), and the from-date's YEAR to the line filter."""
+    from pyvc import astcheck as A
+    F = A.Fn(pr.tree, "rp2.computed_data.ComputedData.__init__")
+    rel = "src/rp2/computed_data.py"
+    q = F.qual
+    out = [A.bvc(q, "callsite", "yearly_lines_are_summed_over_the_unfiltered_fractions_up_to_the_to_date",
+                 F.has("yearly_gain_loss_list = self._create_yearly_gain_loss_list(unfiltered_gain_loss_set, to_date)"), rel),
+           A.bvc(q, "callsite", "yearly_lines_are_filtered_by_the_from_dates_year_only",
+                 F.has("self.__filtered_yearly_gain_loss_list = self._filter_yearly_gain_loss_by_year(yearly_gain_loss_list, from_date.year)"), rel),
+           A.bvc(q, "callsite", "displayed_sets_are_window_views_of_the_unfiltered_sets",
+                 F.has("self.__filtered_taxable_event_set = unfiltered_taxable_event_set.duplicate(from_date=from_date, to_date=to_date)\n"
+                       "self.__filtered_gain_loss_set = unfiltered_gain_loss_set.duplicate(from_date=from_date, to_date=to_date)"), rel),
+           A.bvc(q, "callsite", "balances_and_average_price_use_all_history_up_to_the_to_date",
+                 F.has("self.__filtered_balance_set = BalanceSet(unfiltered_taxable_event_set.configuration, input_data, to_date)\n"
+                       "self.__filtered_price_per_unit = self._compute_price_per_unit(input_data.unfiltered_in_transaction_set, to_date)"), rel)]
+    n_calls = len([c for c in ast.walk(pr.tree.modules["rp2.computed_data"].tree) if isinstance(c, ast.Call) and isinstance(c.func, ast.Attribute) and c.func.attr == "_create_yearly_gain_loss_list"])
+    out.append(A.bvc(q, "callsite", "single_caller_of_the_yearly_summary", n_calls == 1, rel, f"{n_calls} calls"))
+    return out
 
 
 def canaries(pr):
